@@ -60,7 +60,7 @@ func c18Family(t *rapid.T, ev *evProp, fam string, gis []*GroupInfo, withModel b
 	}
 	nsteps := rapid.IntRange(1, 40).Draw(t, "nsteps")
 	ri := func(l string) int { return rapid.IntRange(0, c18Regs-1).Draw(t, l) }
-	ops := []string{"sset", "sset", "sadd", "ssub", "smul", "sneg", "sinv", "pbase", "pmulbase", "pmul", "pmul", "padd", "psub", "pneg", "pdbl", "pnull", "pdecode"}
+	ops := []string{"sset", "sset", "sadd", "ssub", "smul", "sneg", "sinv", "pbase", "pmulbase", "pmul", "pmul", "padd", "psub", "pneg", "pdbl", "pnull", "pdecode", "phostile"}
 	for step := 0; step < nsteps; step++ {
 		op := rapid.SampledFrom(ops).Draw(t, "op")
 		r := ri("r")
@@ -192,6 +192,39 @@ func c18Family(t *rapid.T, ev *evProp, fam string, gis []*GroupInfo, withModel b
 				}
 			}
 			hist = append(hist, fmt.Sprintf("P%d = %s P%d", r, op[1:], a))
+		case "phostile":
+			// an untrusted, possibly non-canonical encoding derived from P_a: every implementation that
+			// accepts it must hand back the same bytes (acceptance itself may legitimately differ and
+			// is only counted); registers are not changed
+			a := ri("a")
+			in, hk := structuredPointInput(t, impls[0].gi, mustMarshal(t, impls[0].pt[a]))
+			hist = append(hist, fmt.Sprintf("decode hostile(%s) %x everywhere", hk, in))
+			var first []byte
+			firstName := ""
+			acc := 0
+			for _, im := range impls {
+				p := newPoint(im.gi)
+				if pn := safely(func() {
+					if p.UnmarshalBinary(append([]byte(nil), in...)) != nil {
+						p = nil
+					}
+				}); pn != "" || p == nil {
+					continue
+				}
+				acc++
+				re := mustMarshal(t, p)
+				if first == nil {
+					first, firstName = re, im.gi.Name
+				} else if !bytes.Equal(re, first) {
+					fail("hostile-reencode", "the accepted input %x re-encodes as %x on %s but as %x on %s", in, first, firstName, re, im.gi.Name)
+					return
+				}
+			}
+			if acc > 0 && acc < len(impls) {
+				ev.Label("c18-hostile-acceptance-differs:" + fam)
+			} else if acc > 1 {
+				nontrivial = true
+			}
 		case "pdecode":
 			// transport through bytes: encode on one implementation, decode on every other
 			a := ri("a")
